@@ -80,9 +80,16 @@ def run():
     rep.obligations.extend(tabvc.run_family(_group, list(range(1, 231))))
     nz = tabvc.run_family(tabvc.normalizer_obligations, list(range(1, 231)))
     rep.obligations.extend(o for o in nz if o.id.split("[")[0] in ("nz.closed", "nz.perm-wf"))
-    sections_parallel(rep, [("id", _id), ("getters", _getters)])
+    sections_parallel(rep, [("id", _id), ("getters", _getters), ("maps", _maps)])
     rep.unproved_conjuncts.append("C06 last clause (identical conventional cell for parameter-free structures) depends on which of several equally ranked transformations is first: not covered")
     return rep
+
+
+def _maps(rep):
+    """multiplicities come from the orbit ids of the conventional atoms: they must be the crystallographic orbits (class labels that do not
+    depend on the cell in which the crystal is presented), not the equivalences of the given cell (proved for all sizes, shared with C12)"""
+    from props import C12
+    C12._maps(rep)
 
 
 class _WS:
